@@ -1204,11 +1204,17 @@ func (e *k11Env) step(op k11Op) bool {
 
 var k11Panics int64
 
-func k11RunSingle(c *k11Case) (out k11Out) {
+func k11RunSingle(c *k11Case) k11Out { return k11RunSingleOpts(c, false) }
+
+// k11RunSingleOpts: replay = true switches the tolerance of listed findings off (a replay must show them).
+func k11RunSingleOpts(c *k11Case, replay bool) (out k11Out) {
 	e, err := k11NewEnv(c, vInstOpts{DBConcurrent: uint(c.Conc), DBFastKeyCount: uint(c.FastKeys), AofFileBufferSize: uint(c.AofBuf), NoCheckLoop: true, DBLockAofTime: 0}, nil)
 	if err != nil {
 		out.inconclusive = "instance: " + err.Error()
 		return
+	}
+	if replay {
+		e.known = func(string) bool { return false }
 	}
 	defer func() {
 		if p := recover(); p != nil {
